@@ -14,6 +14,35 @@ let run (suite : string) (inp : Sx.t) : Sx.t =
       (match XorFloat.mask_of (to_opt to_n mant) with
        | None -> A "none"
        | Some mask -> L [A "some"; of_list of_n (XorFloat.expected mask (to_list to_n fs))])
+  | "rows", L [i2f; cols] ->
+      let tbl = Stdlib.List.map (fun x -> match x with
+        | L [i; f] -> (Z.of_string (atom i), to_n f)
+        | _ -> raise (Conv "i2f")) (lst i2f) in
+      let conv z = match Stdlib.List.assoc_opt (z_of_cz z) tbl with
+        | Some f -> f | None -> raise (Conv "i2f missing") in
+      let to_val x = match x with
+        | L [A "i"; i] -> EventBuf.VInt (to_z i)
+        | L [A "f"; f] -> EventBuf.VFloat (to_n f)
+        | L [A "s"; s] -> EventBuf.VStr (to_bytes s)
+        | A "null" -> EventBuf.VNull
+        | _ -> raise (Conv "anyval") in
+      let of_pairs f l = of_list (fun (i, v) -> L [of_int (int_of_nat i); f v]) l in
+      let of_data d = match d with
+        | EventBuf.CEmpty -> A "empty"
+        | EventBuf.CDense l -> L [A "dense"; of_list of_n l]
+        | EventBuf.CSparse l -> L [A "sparse"; of_pairs of_n l]
+        | EventBuf.CI64 l -> L [A "i64"; of_list of_z l]
+        | EventBuf.CSparseI64 l -> L [A "sparse-i64"; of_pairs of_z l]
+        | EventBuf.CString l -> L [A "string"; of_list of_bytes l]
+        | EventBuf.CMixed _ -> A "mixed" in
+      let results = Stdlib.List.map (fun col ->
+        EventBuf.push_rows conv EventBuf.CEmpty Datatypes.O (to_list (to_opt to_val) col)) (lst cols) in
+      if Stdlib.List.exists (fun r -> r = EventBuf.PushPanic) results then A "panic"
+      else L (Stdlib.List.map (fun r -> match r with EventBuf.Pushed d -> of_data d | _ -> A "panic") results)
+  | "int_roundtrip", xs ->
+      (match IntResponse.roundtrip (to_list to_z xs) with
+       | None -> A "panic"
+       | Some ys -> L [of_list of_z ys])
   | _ -> raise (Conv ("unknown suite or bad input shape: " ^ suite))
 
 let () = Loop.main run
